@@ -263,7 +263,7 @@ impl<'a, T: ComputeSize> ComputedArray<'a, T> {
 //@spec
         ensures r.is_ok() ==> r->Ok_0.data == data && r->Ok_0.len * r->Ok_0.item_len <= data.bytes@.len()
             && (r->Ok_0.item_len == 0 ==> r->Ok_0.len == 0) && (r->Ok_0.item_len > 0 ==> r->Ok_0.len == (data.bytes@.len() as int) / (r->Ok_0.item_len as int))
-//@at after "let len = data.len().checked_div(item_len).unwrap_or(0);"
+//@at before "Ok(ComputedArray {"
         proof {
             if item_len > 0 {
                 let n = data.bytes@.len() as int; let d = item_len as int;
